@@ -163,6 +163,7 @@ func (c *trCtx) effectAssign(x *ast.AssignStmt, rest trCont) (string, bool, erro
 			return "", true, trErr("result of an effect assigned to the variable %s", id.Name)
 		}
 		c.vars[id.Name] = tyOpaque
+		c.noteAssigned(id.Name)
 		if _, ok := c.depth[id.Name]; !ok {
 			c.depth[id.Name] = c.cur
 		}
@@ -254,4 +255,40 @@ func (c *trCtx) errComposite(e ast.Expr) (string, bool) {
 		return "(some " + strconv.Quote(exprText(c.fset, cl.Type)) + ")", true
 	}
 	return "", false
+}
+
+func (c *trCtx) noteAssigned(name string) {
+	if c.assignCount == nil {
+		c.assignCount = map[string]int{}
+	}
+	c.assignCount[name]++
+}
+
+// paramStillMeansTheSame: a parameter matched by the TEXT of an expression stands for the value of
+// that expression at the start of the translated code.  If a Go variable occurring in the text has been
+// assigned since (`a := s[0]; s = s[1:]; b := s[0]`), the same text means something else: refused.  The
+// result variables of ONE effect call (`f, err := os.OpenFile(…)`; `err == nil`) are the exception: they
+// are only readable through such parameters; a second assignment makes the text ambiguous.
+// (A parameter whose text is the variable itself is its initial value; assignments shadow it.)
+func (c *trCtx) paramStillMeansTheSame(p *trParam, e ast.Expr) error {
+	if p.isState || isGoIdent(p.goText) {
+		return nil
+	}
+	var bad error
+	ast.Inspect(e, func(n ast.Node) bool {
+		id, ok := n.(*ast.Ident)
+		if !ok || bad != nil {
+			return bad == nil
+		}
+		t, isVar := c.vars[id.Name]
+		if !isVar {
+			return true
+		}
+		cnt := c.assignCount[id.Name]
+		if (t == tyOpaque && cnt > 1) || (t != tyOpaque && cnt > 0) {
+			bad = trErr("the parameter `%s` is matched by text, but its variable %s has been assigned: the text no longer means the same value", p.goText, id.Name)
+		}
+		return true
+	})
+	return bad
 }
